@@ -79,6 +79,23 @@ def gen(seed, run, tier='quick'):
                 rng.random() < 0.5:
             ops.append(['permuted'] + [rng.randrange(1 << 16)
                                        for _ in range(12)])
+    if rng.random() < 0.2:
+        # converter scenario: a new converter, an update without rate specs
+        # (fixes the kind), a rejected update of that kind, an update of
+        # another kind (must be refused), a valid update
+        rr = lambda: [rng.randrange(1 << 16) for _ in range(12)]    # noqa
+        pos = rng.randrange(len(ops) // 2, len(ops) + 1)
+        seq = [['currency_reg'] + rr(), ['currency_reg'] + rr(),
+               ['conv_new'] + rr()]
+        e = rr(); e[0] = 65535; e[11] = 10
+        seq.append(['conv_update'] + e)
+        b = rr(); b[0] = 65535; b[7] = rng.choice([2, 3])
+        seq.append(['conv_update_bad'] + b)
+        m = rr(); m[0] = 65535; m[7] = 1
+        seq.append(['conv_update_bad'] + m)
+        v = rr(); v[0] = 65535; v[11] = 1
+        seq.append(['conv_update'] + v)
+        ops[pos:pos] = seq
     if rng.random() < 0.35:
         # operation-cache scenario (see _scenario_step), somewhere in the
         # second half of the history
@@ -161,6 +178,7 @@ class State:
         self.term_pairs = []    # (s1, s2, op) that term definitions use
         self.scn = None         # running operation-cache scenario
         self.last_rejected_type = None
+        self.last_iter = None   # (converter, iterator name, specs)
         self.n_amount = 0
 
     def amount(self):
@@ -331,7 +349,8 @@ def resolve(st: State, op):
         return {'a': 'conv_new', 'name': f'K{n}', 'base': base,
                 'expect': 'accept'}
     if kind in ('conv_update', 'conv_update_bad'):
-        cn = decl._pick(list(st.convs), r[0])
+        cn = list(st.convs)[-1] if st.convs and r[0] == 65535 \
+            else decl._pick(list(st.convs), r[0])
         if cn is None:
             return None
         c = st.convs[cn]
@@ -351,6 +370,17 @@ def resolve(st: State, op):
                           {'t': 'int', 'v': [1, 1, 10, 100][(r[6] + j) % 4]}])
         act = {'a': 'conv_update', 'conv': cn, 'validity': validity,
                'specs': specs, 'expect': 'accept'}
+        # the rate specs may come from a named one-shot iterator that the
+        # caller uses again for its next update (after a rejected one)
+        if r[10] % 4 == 0:
+            act['iter'] = f'it{n}'
+        elif r[10] % 4 == 1 and st.last_iter and kind == 'conv_update' \
+                and st.last_iter[0] == cn:
+            act['iter'] = st.last_iter[1]
+            act['specs'] = specs = [list(map(
+                lambda x: dict(x) if isinstance(x, dict) else x, sp))
+                for sp in st.last_iter[2]]
+            nspec = len(specs)
         if kind == 'conv_update':
             return act
         mode = r[7] % 4
@@ -367,7 +397,14 @@ def resolve(st: State, op):
             pos = r[8] % nspec
             what, val = BAD_SPECS[r[9] % len(BAD_SPECS)]
             spec = specs[pos]
-            if what == 'amount':
+            if r[9] % 7 == 6:
+                # the iterable of rate specs itself fails after `pos`
+                # entries (a feed that cannot be read any further)
+                act['feed_error_at'] = pos
+                what, val = 'feed', None
+            if what == 'feed':
+                pass
+            elif what == 'amount':
                 spec[1] = val
             elif what == 'um':
                 spec[2] = val
@@ -512,6 +549,12 @@ def note_outcome(st: State, act, accepted, info):
     for p in _pairs_of(act):
         if p not in st.term_pairs:
             st.term_pairs.append(p)
+    if a == 'conv_update':
+        # an iterator whose update was rejected before it was (supposed to
+        # be) read may serve the caller's next update
+        st.last_iter = (act['conv'], act['iter'], act['specs']) \
+            if act.get('iter') and not accepted and \
+            act.get('bad') in ('mixed_kind', 'invalid_validity') else None
     if a == 'operate':
         return
     if accepted:
@@ -581,6 +624,7 @@ class Env16(decl.Env):
     def __init__(self):
         super().__init__()
         self.convs = {}
+        self.iters = {}
 
 
 def type_key(env, cls):
@@ -628,6 +672,17 @@ def perform(env: Env16, act):
             specs.append((c, am, u))
         form = (len(specs) + len(act['conv'])) % 3
         container = [specs, iter(specs), (s for s in specs)][form]
+        if act.get('feed_error_at') is not None:
+            def feed(specs=specs, k=act['feed_error_at']):
+                for j, sp in enumerate(specs):
+                    if j == k:
+                        raise LookupError('feed cannot be read any further')
+                    yield sp
+            container = feed()
+        elif act.get('iter'):
+            if act['iter'] not in env.iters:
+                env.iters[act['iter']] = iter(specs)
+            container = env.iters[act['iter']]
         try:
             conv.update(validity, container)
         except Exception as e:      # noqa
